@@ -32,6 +32,7 @@ type switchboard struct {
 
 	conns      sync.Map
 	connsCount uint32
+	addConnM   sync.Mutex
 	randPool   sync.Pool
 
 	broken uint32
@@ -54,8 +55,13 @@ func makeSwitchboard(sesh *Session) *switchboard {
 var errBrokenSwitchboard = errors.New("the switchboard is broken")
 
 func (sb *switchboard) addConn(conn net.Conn) {
-	connId := atomic.AddUint32(&sb.connsCount, 1) - 1
+	// publish the new count only after the entry exists: pickRandConn draws an id below connsCount and treats a
+	// missing entry as a broken switchboard, which would tear down a perfectly healthy session
+	sb.addConnM.Lock()
+	connId := atomic.LoadUint32(&sb.connsCount)
 	sb.conns.Store(connId, conn)
+	atomic.StoreUint32(&sb.connsCount, connId+1)
+	sb.addConnM.Unlock()
 	go sb.deplex(conn)
 }
 
